@@ -97,6 +97,43 @@ Section Generic.
       + now apply IH.
   Qed.
 
+  (* registration stores the id verbatim *)
+  Lemma lookup_set_key reg k c k' :
+    lookup (set_key reg k c) k' = if ident_eqb k k' then Some c else lookup reg k'.
+  Proof.
+    induction reg as [|[k0 c0] r IH]; cbn.
+    - reflexivity.
+    - destruct (ident_eqb k0 k) eqn:E; cbn.
+      + apply ident_eqb_spec in E. subst k0. destruct (ident_eqb k k'); reflexivity.
+      + rewrite IH. destruct (ident_eqb k0 k') eqn:E'; [|reflexivity].
+        destruct (ident_eqb k k') eqn:E2; [|reflexivity].
+        apply ident_eqb_spec in E'. apply ident_eqb_spec in E2. subst k0 k'.
+        rewrite ident_eqb_refl in E. discriminate.
+  Qed.
+
+  Lemma lookup_register : forall ids reg c k,
+    lookup (register reg ids c) k = if existsb (fun i => ident_eqb i k) ids then Some c else lookup reg k.
+  Proof.
+    unfold register. induction ids as [|i ids IH]; intros reg c k; cbn [fold_left existsb].
+    - reflexivity.
+    - rewrite IH, lookup_set_key. destruct (existsb (fun i0 => ident_eqb i0 k) ids); [now rewrite orb_true_r|].
+      now rewrite orb_false_r.
+  Qed.
+
+  (* a class registered under the ids [ids] is found under exactly those keys (until re-registered);
+     every other key keeps what it had *)
+  Lemma register_spec reg ids c k :
+    (In k ids -> lookup (register reg ids c) k = Some c) /\
+    (~ In k ids -> lookup (register reg ids c) k = lookup reg k).
+  Proof.
+    rewrite lookup_register. split; intro H.
+    - assert (E : existsb (fun i => ident_eqb i k) ids = true).
+      { apply existsb_exists. exists k. split; [exact H | apply ident_eqb_refl]. }
+      now rewrite E.
+    - destruct (existsb (fun i => ident_eqb i k) ids) eqn:E; [|reflexivity].
+      apply existsb_exists in E. destruct E as [i [Hi E]]. apply ident_eqb_spec in E. subst i. contradiction.
+  Qed.
+
   (* first match over a list whose ranks strictly increase = the match of minimal rank *)
   Lemma first_match_some reg (l : list (nat * ident)) c :
     (forall i j a b, i < j -> nth_error l i = Some a -> nth_error l j = Some b -> fst a < fst b) ->
